@@ -225,7 +225,25 @@ def gen_extract(out_path):
     return log
 
 
-GENERATORS = {"compute": gen_compute, "extract": gen_extract}
+def gen_lemmas(out_path):
+    """History / composition lemmas; the only extracted text is the Kani oracle `next_gen`."""
+    log = []
+    try:
+        h = open(os.path.join(VERIF, "harness/clock-bound-shm/verif_write.rs")).read()
+        sig, body = ex.fn_parts(h, "next_gen", what="harness oracle next_gen")
+        sig = sig.replace("pub(crate) ", "")
+        parts = {"SIG:harness.next_gen": _named(sig, log, "harness oracle next_gen"), "BODY:harness.next_gen": body}
+        out = fill(open(os.path.join(VERIF, "verus", "lemmas.rs.tmpl")).read(), parts)
+    except ex.ExtractError as err:
+        raise Undecided("extract", str(err))
+    log.append({"item": "harness/clock-bound-shm/verif_write.rs fn next_gen", "rewrite": "pasted verbatim as an exec fn with `ensures r == next_gen(g)`",
+                "count": 1, "why": "ties the Kani obligation C11.write.final_value to the spec function used in the induction"})
+    with open(out_path, "w") as f:
+        f.write(out)
+    return log
+
+
+GENERATORS = {"compute": gen_compute, "extract": gen_extract, "lemmas": gen_lemmas}
 
 
 def obligation_map(path):
